@@ -94,6 +94,32 @@ def h_dt_data(f, N, mode, period=None, txt=None, cols='list'):
     return body
 
 
+def h_fail_between(txt, vs, N, kind='offline'):
+    """offline repeatability across a FAILING call: evaluate(d), then an evaluate() that raises part-way (division by exactly zero in a later
+    assertion, after earlier assertions have been computed), then evaluate(d) again on the same object: same result as the first time"""
+    def body(env):
+        A = env.A
+        s = dt.make_spec(kind, txt, vs)
+        w = dt.trace(env, vs, N, ext=False)
+        for x in w.get('y', []):
+            env.assume(A.Or(A.lt(x, 0), A.lt(0, x)))
+        d = {'time': list(range(N))}
+        for v in vs:
+            d[v] = list(w[v])
+        r1 = [p[1] for p in s.evaluate(d)]
+        bad = {'time': list(range(N))}
+        for v in vs:
+            bad[v] = [0.0 if v == 'y' else 7.0 + i for i in range(N)]
+        try:
+            s.evaluate(bad)
+        except ZeroDivisionError:
+            pass
+        r2 = [p[1] for p in s.evaluate(d)]
+        env.observe('again', r2)
+        return dt.eq_list(A, 'repeat-after-failure', r2, r1)
+    return body
+
+
 def h_ct_data(f, ns, mode, overlap=False, closed=False, first_all=False, dup=False):
     f = T(f)
     vs = sorted(variables(f))
@@ -304,6 +330,10 @@ def obligations(tier, rng):
     for f in [('and', X, Y), ('geq', X, Y), ('not', X), ('once', X), ('historically', X), ('always', X), ('eventually', X), ('since', X, Y), ('until', X, Y),
               ('sub', X, Y), ('implies', X, Y), ('abs', X), ('prev', X), ('eventually_t', X, 0, 1), ('always_t', X, 0, 1)]:
         out.append(ob('C11', 'dt_data', 'data/dt-offline-tuples/%s/N=4' % text(f), f=f, N=4, mode='offline', cols='tuple'))
+    for txt in ['a = (x) - (1.0);\nout = always(((a) / (y)) >= (1.0))', 'a = once[0,1](x);\nb = (a) / (y);\nout = (b) >= (a)', 'out = ((x) / (y)) >= (1.0)',
+                'a = (x) >= (1.0);\nb = historically(a);\nout = (b) and (((x) / (y)) >= (0.0))']:
+        for kind in ('offline', 'combined'):
+            out.append(ob('C11', 'fail_between', 'repeat-after-failing-call/%s/%s' % (kind, txt.replace('\n', ' ')), txt=txt, vs=['x', 'y'], N=3, kind=kind))
     from .. import pool
     for g in pool.ALL:
         out.append(ob('C11', 'dt_data', 'repeat-pool/dt-offline/%s/P=%s/unit=%s' % (g[1], g[3] or '-', g[4] or '-'), f=g, N=5, mode='offline'))
